@@ -287,6 +287,9 @@ pub fn run_syscall_case(cx: &CaseCtx, rep: &mut Report, format: &str, real_binar
 		rep.inconclusive(&format!("traced writer did not run: {st:?}"));
 		return;
 	}
+	if real_binary {
+		file_size_limit(cx, rep, format, &dir);
+	}
 	let log = std::fs::read_to_string(&trace).unwrap_or_default();
 	let ops = match parse_strace(&log, out.to_str().unwrap()) {
 		Ok(o) => o,
@@ -448,4 +451,75 @@ pub fn run_syscall_case(cx: &CaseCtx, rep: &mut Report, format: &str, real_binar
 	}
 	let _ = std::fs::remove_dir_all(&dir);
 	let _ = Path::new("");
+}
+
+/// Writing stops because the file may not grow any further (RLIMIT_FSIZE, the same to the writer as a full disk
+/// or a quota): the write that crosses the limit is cut short, the next one fails. `versatiles convert` runs
+/// under a number of such limits; whatever it reports, the bytes it leaves behind must not open as a container
+/// that lacks or misreports tiles.
+fn file_size_limit(cx: &CaseCtx, rep: &mut Report, format: &str, dir: &Path) {
+	use std::os::unix::process::CommandExt;
+	let Some(bin) = crate::server::binary() else { return };
+	let mut rng = Rng::for_case(cx.seed, "C12lim", cx.case);
+	let opts = GenOpts { max_tiles: 40, max_level: 12, formats: pairs_for(format), unique_payloads: true, ..Default::default() };
+	let mut ts = gen::gen_tileset(&mut rng, &opts);
+	// writes of 8 KiB and more go to the file directly: every tile is that large
+	for v in ts.tiles.values_mut() {
+		let n = 9000 + rng.usize_below(20_000);
+		let more = rng.bytes(n);
+		v.extend_from_slice(&more);
+	}
+	let src = dir.join("limsrc.versatiles");
+	let mut m = MemSource::new(&ts);
+	if guard::block_on(versatiles_container::write_to_filename(&mut m, src.to_str().unwrap())).is_err() {
+		return;
+	}
+	let out = dir.join(format!("lim.{format}"));
+	let run = |limit: Option<u64>| {
+		let _ = std::fs::remove_file(&out);
+		let mut c = std::process::Command::new(&bin);
+		c.arg("convert").arg(&src).arg(&out).current_dir(dir).stdin(std::process::Stdio::null()).stdout(std::process::Stdio::null()).stderr(std::process::Stdio::null());
+		if let Some(l) = limit {
+			// SAFETY: only async-signal-safe libc calls between fork and exec
+			unsafe {
+				c.pre_exec(move || {
+					let lim = libc::rlimit { rlim_cur: l, rlim_max: l };
+					libc::setrlimit(libc::RLIMIT_FSIZE, &lim);
+					Ok(())
+				});
+			}
+		}
+		c.status().ok()
+	};
+	if !matches!(run(None), Some(st) if st.success()) {
+		return;
+	}
+	let full = std::fs::metadata(&out).map(|m| m.len()).unwrap_or(0);
+	if full < 1000 || !matches!(try_image(format, &std::fs::read(&out).unwrap_or_default(), &ts), Outcome::OpenedIntact) {
+		return;
+	}
+	for _ in 0..cx.tier.pick(16, 40) {
+		// anywhere in the file, or inside whatever was written last
+		let limit = if rng.bool() { rng.range(full / 20, full - 1) } else { full - 1 - rng.below(9000.min(full / 2)) };
+		let st = run(Some(limit));
+		let img = std::fs::read(&out).unwrap_or_default();
+		rep.eval();
+		rep.count("conversions_under_a_file_size_limit", 1);
+		if matches!(st, Some(s) if s.success()) {
+			rep.count("conversions_under_a_file_size_limit_that_reported_success", 1);
+		}
+		match try_image(format, &img, &ts) {
+			Outcome::Rejected => rep.count("images_rejected", 1),
+			Outcome::OpenedIntact => rep.count("partial_images_opened_and_intact", 1),
+			Outcome::Panicked(_) => rep.count("images_on_which_the_reader_panicked", 1),
+			Outcome::OpenedWrong(e) => {
+				rep.violation(
+					&format!("{format}|file-size-limit|opens-but-wrong"),
+					"a conversion that ran into the file size limit left a file that opens as a valid container but lacks / misreports tiles",
+					json!({"format": format, "complete_file_len": full, "limit": limit, "exit_status": format!("{st:?}"), "bytes_on_disk": img.len(), "tileset": ts.describe(), "what": e}),
+				);
+				break;
+			}
+		}
+	}
 }
